@@ -152,9 +152,13 @@ impl Project for FileBackedProject {
     fn semantic(&mut self) -> Result<(), Vec<Diagnostic>> {
         #[cfg(feature = "verif")]
         crate::verif::source_order(self.sources.keys());
-        let library_results: Vec<_> = self
-            .sources
-            .iter_mut()
+        // Analyze the files in a stable order. The map iterates in a different
+        // order in each run, and where analysis stops at the first problem of a
+        // kind, the order decides which problem (in which file) is reported.
+        let mut sources: Vec<_> = self.sources.iter_mut().collect();
+        sources.sort_by_key(|source| source.0.to_string());
+        let library_results: Vec<_> = sources
+            .into_iter()
             .map(|source| source.1.library())
             .collect();
 
